@@ -123,6 +123,12 @@ def observe(wf, cfg, probes):
         out["testvalue e=%d" % e] = np.asarray(wf.testvalue(e, trial)[0]).copy()
         g, lap = wf.gradient_laplacian(e, cfg.electron(e))
         out["laplacian e=%d" % e] = np.asarray(lap).copy()
+    # parameter derivatives are read from cached arrays too (the gradient accumulator of an optimisation sees them)
+    try:
+        for k, v in wf.pgradient().items():
+            out["pgradient " + k] = np.asarray(v).copy()
+    except Exception:
+        pass
     return out
 
 
@@ -137,7 +143,7 @@ def differences(before, after, okw):
         if a.shape != b.shape:
             bad.append((k, "shape"))
             continue
-        aa, bb = a[..., okw], b[..., okw]
+        aa, bb = (a[okw], b[okw]) if k.startswith("pgradient") else (a[..., okw], b[..., okw])
         fin = np.isfinite(bb) & (np.abs(bb) < 1e8)
         if not np.array_equal(np.isfinite(aa), np.isfinite(bb)):
             bad.append((k, "non-finite pattern changed"))
